@@ -511,4 +511,6 @@ def run(run: Run):
     run.floor('C18.R2', 2)
     run.floor('C18.R3', 7)
     run.floor('C18.R4', 2)
+    from .common import shared_mechanisms as _shared
+    _shared(run, 'C18', 8, ['addresses'])
     return INFO
